@@ -8,6 +8,48 @@ HERE = os.path.dirname(os.path.dirname(os.path.abspath(__file__)))
 
 # id -> (technique, level text, level note, design ref)
 CHECKS = {
+    "C01": (
+        "Hypothesis-generated + bounded-exhaustive weight matrices / feature sets; oracle = Bellman-Ford minimax fix point and forest validity predicate",
+        "Exploration: every generated training set (tied, tie-free, float pre-computed matrices; feature data under 41 metrics) and every symmetric matrix over 3 levels on 3-4 nodes (5 in thorough) is fitted; costs must equal an independent fix-point computation exactly and the predecessor forest / conquest order must satisfy the statement's predicates.",
+        "Trusted: the reference fix point in pbt/common/oracles.py; prototypes are read from the model (C02 decides them).",
+        "DESIGN.md section 6, C01",
+    ),
+    "C02": (
+        "Hypothesis + bounded-exhaustive; oracle = enumeration of all spanning trees (Pruefer) for n<=7, unique Kruskal MST when tie-free, perturbed-weight Kruskal necessary conditions beyond",
+        "Exploration: the flagged prototype set must be induced by some minimum spanning tree; decided exactly for every tie pattern on <= 7 labeled nodes and for tie-free matrices of any size, by necessary conditions for larger tied matrices.",
+        "Trusted: tree enumeration / Kruskal in pbt/common/oracles.py.",
+        "DESIGN.md section 6, C02",
+    ),
+    "C03": (
+        "Hypothesis + bounded-exhaustive fitted models x queries; oracle = exhaustive arg-min scan of max(cost, distance) from outside",
+        "Exploration: for every generated fitted supervised / semi-supervised model and query the returned label must belong to the exhaustive arg-min label set (exact comparison).",
+        "Trusted: costs / assigned labels read from the model (C01, C15).",
+        "DESIGN.md section 6, C03",
+    ),
+    "C06": (
+        "Hypothesis over (identifier, vectors in domain, resolution path); oracle = closed forms evaluated in 60-digit decimal arithmetic with a stated rounding tolerance; acceptance-set differential registry vs. four constructors",
+        "Exploration: per identifier hundreds (quick) / thousands (thorough) of vector pairs of lengths 1..64 are compared with the published closed form; the accepted-name set is compared with the registry on table names, near-misses and random text.",
+        "Trusted: the closed-form table pbt/common/metrics.py (DESIGN.md section 5) and its tolerance model.",
+        "DESIGN.md sections 5 and 6, C06",
+    ),
+    "C08": (
+        "Hypothesis over (identifier, triples in the C08 domain with forced classes); oracle = the axiom table (finite / symmetric / non-negative / zero self-distance / triangle)",
+        "Exploration: per identifier hundreds / thousands of triples including identical, parallel, zero-containing, all-zero, 1-ulp-apart and extreme-magnitude vectors are checked against the axioms the table claims for it.",
+        "Trusted: axiom table and tolerance model in pbt/common/metrics.py.",
+        "DESIGN.md sections 5 and 6, C08",
+    ),
+    "C15": (
+        "Hypothesis + bounded-exhaustive labeled+unlabeled sets (incl. bridge data); oracle = C01 fix point and forest predicate on the union graph, C02 oracle on the labeled sub-graph, differential vs SupervisedOPF for an empty unlabeled set",
+        "Exploration: as C01/C02 on the union graph; with an empty unlabeled set every node field, the conquest order and predictions must equal supervised training.",
+        "Trusted: reference oracles of C01/C02.",
+        "DESIGN.md section 6, C15",
+    ),
+    "C20": (
+        "Hypothesis over label/prediction vectors and matrices; oracle = the statement's definitions in exact rational arithmetic",
+        "Exploration: accuracy, bounds, the ==1 equivalences, confusion matrix, recall, purity and z-scores are recomputed from the definitions for thousands (quick) / 200k (thorough) vectors.",
+        "Trusted: the rational-arithmetic reference in pbt/props/c20.py; population standard deviation.",
+        "DESIGN.md section 6, C20",
+    ),
     "C05": (
         "Hypothesis RuleBasedStateMachine + bounded-exhaustive DFS of histories + atheris (libFuzzer) byte-decoded histories, all against a dict reference model",
         "Exploration: generated and (for capacity<=3, costs {0,1,2}, depth<=5/6) exhaustively enumerated operation histories are executed on the real Heap and on a dict model; after every step the returned element, failure reports, emptiness/fullness and colours must agree, and a final drain must return every queued element once in order. No claim beyond the explored histories.",
